@@ -241,7 +241,12 @@ def call_repo(ex, p, qname, args, kwargs, node=None):
     if c is not None:
         yield from c.apply(ex, p, args, kwargs, node)
         return
-    if qname in ex.ctx.inline or ex.ctx.opts.get('inline_all'):
+    auto = ex.ctx.opts.get('auto_inline', True) and qname not in ex.ctx.opts.get('never_inline', ())
+    if auto and qname not in ex.ctx.inline and not ex.ctx.opts.get('inline_all'):
+        # a repository function without a contract of its own (e.g. a helper introduced by a refactoring): it is executed inline,
+        # i.e. verified as part of its caller, and listed as such
+        ex.ctx.assume_note(f'{qname}: no separate contract -- executed inline and verified as part of its caller')
+    if qname in ex.ctx.inline or ex.ctx.opts.get('inline_all') or auto:
         parts = qname.split('.')
         # module is the longest prefix that resolves
         for cut in (len(parts) - 1, len(parts) - 2):
@@ -602,6 +607,10 @@ def m_ceil(ex, p, args, kwargs, node):
 
 def m_sqrt(ex, p, args, kwargs, node):
     v = args[0]
+    if isinstance(v, VFloat) and v.is_fp():
+        for q, r in ex.raise_unless(p, z3.Not(z3.fpLT(v.t, z3.FPVal(0.0, z3.Float64()))), 'ValueError', node):
+            yield q, (r if r is not None else VFloat(z3.fpSqrt(z3.RNE(), v.t)))
+        return
     v = arith._float_of(ex, p, v)
     if v.conc():
         import math
